@@ -22,7 +22,7 @@ from sim.vclock import VClock
 
 PLUGIN = '''import os
 
-from sim.loadsim import PROCESSOR_RAISED, SimParamSource, SimRunner
+from sim.loadsim import PROCESSOR_RAISED, SimParamSource, SimRunner, failing_prepare_step
 
 
 class SimProcessor:
@@ -32,6 +32,11 @@ class SimProcessor:
         pass
 
     def on_prepare_track(self, track, data_root_dir):
+        with open(os.path.join(os.path.dirname(__file__), "processor-raises")) as f:
+            how = f.read().strip()
+        if how == "task":
+            # the step is run by the task executor's pool, like the preparation of a corpus
+            return [(failing_prepare_step, {})]
         PROCESSOR_RAISED.append(1)
         raise RuntimeError("simulated track processor failure")
 
